@@ -27,17 +27,22 @@ Definition tx_ev_ok (ev : event) : Prop :=
 Lemma ingress_inv : forall cx g s ip r s' reply tags,
   inv g s -> ctx_ok cx -> repr_ok r ->
   iface_tcp_ingress cx s ip r = Ok (s', reply, tags) ->
-  exists g', inv g' s' /\ ghost_rel g g' /\ learned s r s'.
+  exists g', inv g' s' /\ ghost_rel g g' /\ learned s r s' /\ proc_ghost cx g s r g' /\
+             (g' = g \/ tcp_accepts s ip r = true).
 Proof.
   intros cx g s ip r s' reply tags Hinv Hcx Hr H. unfold iface_tcp_ingress in H.
-  assert (Hsame : exists g', inv g' s /\ ghost_rel g g' /\ learned s r s).
-  { exists g. split; [exact Hinv|]. split; [left; apply same_epoch_refl|apply learned_txv; reflexivity]. }
+  assert (Hsame : exists g', inv g' s /\ ghost_rel g g' /\ learned s r s /\ proc_ghost cx g s r g' /\
+                             (g' = g \/ tcp_accepts s ip r = true)).
+  { exists g. split; [exact Hinv|]. split; [left; apply same_epoch_refl|].
+    split; [apply learned_txv; reflexivity|]. split; [left; reflexivity|left; reflexivity]. }
   destruct (_ || _); [injection H as <- <- <-; exact Hsame|].
   destruct (_ || _); [injection H as <- <- <-; exact Hsame|].
-  destruct (tcp_accepts s ip r); [eapply process_inv; eassumption|].
-  destruct (control_eqb (r_control r) CRst); [injection H as <- <- <-; exact Hsame|].
-  destruct (tcp_rst_reply ip r); cbn [obind] in H; try discriminate.
-  injection H as <- <- <-. exact Hsame.
+  destruct (tcp_accepts s ip r) eqn:Ea.
+  - destruct (process_inv _ _ _ _ _ _ _ _ Hinv Hcx Hr H) as (g' & A & B & C & D).
+    exists g'. auto 6.
+  - destruct (control_eqb (r_control r) CRst); [injection H as <- <- <-; exact Hsame|].
+    destruct (tcp_rst_reply ip r); cbn [obind] in H; try discriminate.
+    injection H as <- <- <-. exact Hsame.
 Qed.
 
 (* one step, any event *)
@@ -100,7 +105,7 @@ Proof.
   - (* segment *)
     destruct (iface_tcp_ingress cx s ip r) as [[[s1 rp] tg]| |] eqn:E; cbn [obind] in H; try discriminate.
     injection H as <- <- <-.
-    destruct (ingress_inv _ _ _ _ _ _ _ _ Hinv Hcx Hev E) as (g' & Hi & Hrel & _).
+    destruct (ingress_inv _ _ _ _ _ _ _ _ Hinv Hcx Hev E) as (g' & Hi & Hrel & _ & _ & _).
     exists g'. auto.
   - (* dispatch *)
     destruct (tcp_dispatch cx s emit_ok) as [[[s1 rs] tg]| |] eqn:E; cbn [obind] in H; try discriminate.
